@@ -518,6 +518,27 @@ func (r *c09Run) checkShapesOwnFields(i int, cls string, booksOf map[string][]st
 		}
 		r.shape["q:parent-by-two-relations:"+op] = true
 	}
+	// --- one-to-one: the relation id seen from the side that does not store it
+	{
+		var want []string
+		for _, pp := range r.persons {
+			if pp != "" && r.passports[pp] {
+				want = append(want, pp)
+			}
+		}
+		sort.Strings(want)
+		for _, q := range []string{`query { Passport(filter: {owner_id: {_ne: null}}) { _docID } }`, `query { Passport(filter: {owner: {_docID: {_ne: null}}}) { _docID } }`} {
+			data, ok := r.q(i, q)
+			if !ok {
+				return
+			}
+			if got := idsOf(data["Passport"]); canon(got) != canon(nonNil(want)) {
+				r.res.violate("C09", "relation-filter-differs", "one-to-one:relation-id-of-secondary-side/"+cls, i, "%s = %v, from the persons' side %v", q, got, want)
+				return
+			}
+		}
+		r.shape["q:one-to-one:relation-id-of-secondary-side"] = true
+	}
 	// --- two hops: the listed children of every parent are selected through their own relation
 	{
 		op := ops[rx.IntN(len(ops))]
